@@ -10,6 +10,7 @@ import (
 	"runtime/debug"
 	"strings"
 	"sync/atomic"
+	"syscall"
 	"time"
 
 	"github.com/robfig/soy"
@@ -20,7 +21,8 @@ import (
 // Input is one parse request.
 type Input struct {
 	ID     int    `json:"id"`
-	Cmd    string `json:"cmd,omitempty"`   // "" parse | "baseline" | "edges" | "quit"
+	Cmd    string `json:"cmd,omitempty"`   // "" parse | "time" | "baseline" | "edges" | "quit"
+	Reps   int    `json:"reps,omitempty"`  // time: number of repetitions (the best one counts)
 	Entry  string `json:"entry,omitempty"` // file | expr | globals
 	Name   string `json:"name,omitempty"`
 	Text   []byte `json:"text,omitempty"`
@@ -58,6 +60,7 @@ type Result struct {
 	ProfWhere string     `json:"profWhere,omitempty"` // function such a goroutine belongs to
 	Events    string     `json:"events,omitempty"`    // compact event list of a sampled trace
 	Micros    int64      `json:"us,omitempty"`
+	CPUus     int64      `json:"cpuUs,omitempty"` // time: CPU time (user+system, getrusage) of the best repetition
 
 	// answers to commands
 	Baseline int      `json:"baseline,omitempty"`
@@ -133,6 +136,8 @@ func workerMain() {
 			return
 		case "edges":
 			res = Result{ID: req.ID, Outcome: "edges", Edges: w.tr.Edges()}
+		case "time":
+			res = w.timeOne(&req)
 		case "baseline":
 			n, st := pollScanners(2 * time.Second)
 			res = Result{ID: req.ID, Outcome: "baseline", Baseline: n, Stack: st}
@@ -148,6 +153,68 @@ func workerMain() {
 			os.Exit(3)
 		}
 	}
+}
+
+// cpuNow is the CPU time (user + system) this process has used so far.
+func cpuNow() time.Duration {
+	var ru syscall.Rusage
+	if err := syscall.Getrusage(syscall.RUSAGE_SELF, &ru); err != nil {
+		return 0
+	}
+	return time.Duration(ru.Utime.Nano() + ru.Stime.Nano())
+}
+
+// timeOne measures the CPU time of one call of the entry point, hooks off:
+// the minimum over Reps repetitions, each started after a garbage collection.
+// CPU time of the process, not wall time, so that machine load does not matter.
+func (w *worker) timeOne(in *Input) Result {
+	res := Result{ID: in.ID, Outcome: "timed"}
+	saved := parse.VerifLex
+	parse.VerifLex = nil
+	defer func() { parse.VerifLex = saved }()
+	reps := in.Reps
+	if reps <= 0 {
+		reps = 1
+	}
+	type out struct {
+		best time.Duration
+		err  error
+		pan  interface{}
+	}
+	done := make(chan out, 1)
+	go func() {
+		var o out
+		defer func() {
+			if p := recover(); p != nil {
+				o.pan = p
+			}
+			done <- o
+		}()
+		// no garbage collection while the clock runs: its cost depends on the heap
+		// size, not on the parser (the inputs are a few MB, the trees fit in memory)
+		defer debug.SetGCPercent(debug.SetGCPercent(-1))
+		for i := 0; i < reps; i++ {
+			runtime.GC()
+			t0 := cpuNow()
+			o.err = callEntry(in)
+			d := cpuNow() - t0
+			if i == 0 || d < o.best {
+				o.best = d
+			}
+		}
+	}()
+	select {
+	case o := <-done:
+		res.CPUus = o.best.Microseconds()
+		if o.pan != nil {
+			res.Outcome, res.Panic = "panic", fmt.Sprint(o.pan)
+		} else if o.err != nil {
+			res.Err = o.err.Error()
+		}
+	case <-time.After(10 * time.Minute):
+		res.Outcome, res.Spin, res.Exits = "suspect", "stuck", true
+	}
+	return res
 }
 
 // callEntry runs the entry point of the code under test.
@@ -166,9 +233,60 @@ func callEntry(in *Input) (err error) {
 			}()
 			_, err = soy.ParseGlobals(strings.NewReader(string(in.Text)))
 		}()
+	case "bundle":
+		func() {
+			// Bundle.Compile runs the checker passes after parsing; their panics
+			// (C06/C07) are not the parser's: recovered, not judged.
+			defer func() {
+				if p := recover(); p != nil {
+					err = fmt.Errorf("verif: Bundle.Compile panicked: %v", p)
+				}
+			}()
+			err = compileBundle(in.Text)
+		}()
 	default:
 		_, err = parse.SoyFile(in.Name, string(in.Text))
 	}
+	return err
+}
+
+// BundleSpec is the text of an input with Entry "bundle" (JSON).
+type BundleSpec struct {
+	Files []struct {
+		Name string `json:"name"`
+		Text string `json:"text"`
+	} `json:"files"`
+	Globals     string `json:"globals,omitempty"`      // text of a globals file ("" = none)
+	GlobalsFile bool   `json:"globals_file,omitempty"` // add it with AddGlobalsFile (a real file)
+	Tofu        bool   `json:"tofu,omitempty"`         // CompileToTofu instead of Compile
+}
+
+// compileBundle drives the public API: NewBundle, AddTemplateString /
+// AddGlobalsFile, Compile / CompileToTofu.
+func compileBundle(spec []byte) error {
+	var bs BundleSpec
+	if err := json.Unmarshal(spec, &bs); err != nil {
+		return fmt.Errorf("verif: bad bundle spec: %v", err)
+	}
+	b := soy.NewBundle()
+	if bs.GlobalsFile {
+		f, err := os.CreateTemp("", "verif-globals-*.txt")
+		if err != nil {
+			return fmt.Errorf("verif: %v", err)
+		}
+		f.WriteString(bs.Globals)
+		f.Close()
+		defer os.Remove(f.Name())
+		b = b.AddGlobalsFile(f.Name())
+	}
+	for _, f := range bs.Files {
+		b = b.AddTemplateString(f.Name, f.Text)
+	}
+	if bs.Tofu {
+		_, err := b.CompileToTofu()
+		return err
+	}
+	_, err := b.Compile()
 	return err
 }
 
@@ -281,8 +399,13 @@ func (w *worker) runOne(in *Input) Result {
 		res.Outcome = "tree"
 	}
 	res.Anomalies = anomalies
-	if returned || in.Entry == "globals" {
+	if (returned || in.Entry == "globals") && in.Entry != "bundle" {
+		// (a bundle may parse its files concurrently: the per-call hook state is
+		// not meaningful there, the goroutine profile is what counts)
 		res.Leaks = leaks
+	}
+	if in.Entry == "bundle" {
+		res.Anomalies = nil
 	}
 	if in.Trace && returned && in.Entry != "globals" {
 		// (ParseGlobals makes one parse.Expr call per line: its hook state is
